@@ -235,18 +235,24 @@ cells([~|Fs0], Args0, Tab, Es, VNs) -->
         !,
         { G0 = ( Arg is Arg0, % evaluate compound expression
                  must_be(integer, Arg),
-                 number_chars(Arg, Cs0),
-                 (   Num =:= 0 -> Cs = Cs0
+                 % the decimal point is placed among the digits of the
+                 % absolute value; the sign goes in front of the result
+                 (   Arg < 0 -> Cs = [-|Cs1]
+                 ;   Cs = Cs1
+                 ),
+                 Abs is abs(Arg),
+                 number_chars(Abs, Cs0),
+                 (   Num =:= 0 -> Cs1 = Cs0
                  ;   length(Cs0, L),
                      (   L =< Num ->
                          Delta is Num - L,
                          length(Zs, Delta),
                          maplist(=('0'), Zs),
-                         phrase(("0.",seq(Zs),seq(Cs0)), Cs)
+                         phrase(("0.",seq(Zs),seq(Cs0)), Cs1)
                      ;   BeforeComma is L - Num,
                          length(Bs, BeforeComma),
                          append(Bs, Ds, Cs0),
-                         phrase((seq(Bs),".",seq(Ds)), Cs)
+                         phrase((seq(Bs),".",seq(Ds)), Cs1)
                      )
                  )),
           goal_pe(G0, G) },
